@@ -20,7 +20,9 @@ class VehicleChargeEventsHandler(Handler):
             "energy": [],
             "units": [],
         }
-        self.events = self.prototype.copy()
+        # new lists each time: a shallow copy would share (and keep appending to) the
+        # prototype's lists, so clear() would not clear anything
+        self.events: Dict[str, List] = {key: [] for key in self.prototype}
 
     def handle(self, reports: List[Report], runner_payload: RunnerPayload):
         for report in reports:
@@ -48,7 +50,9 @@ class VehicleChargeEventsHandler(Handler):
         clears the stored events
         :return:
         """
-        self.events = self.prototype.copy()
+        # new lists each time: a shallow copy would share (and keep appending to) the
+        # prototype's lists, so clear() would not clear anything
+        self.events = {key: [] for key in self.prototype}
 
     def close(self, runner_payload: RunnerPayload):
         pass
